@@ -11,7 +11,7 @@ if ! git -C $WT apply "$P" 2>/dev/null; then
   git -C $WT reset -q --hard
   if ! patch -p1 -s --no-backup-if-mismatch -d $WT -i "$P" >/dev/null; then echo "PATCH DOES NOT APPLY: $P"; git -C $WT reset -q --hard; git -C $WT clean -fdqx; exit 3; fi
 fi
-/verif/bin/jpverif "${@:-rules}" --repo $WT
+${JPVERIF:-/verif/bin/jpverif} "${@:-rules}" --repo $WT
 rc=$?
 git -C $WT checkout -- . ; git -C $WT clean -fdq
 exit $rc
